@@ -26,7 +26,7 @@ class Obligation:
 
 class Contract:
     def __init__(self, qual, params=None, requires=(), ensures=(), raises=None, modifies=None, loops=None, result=None,
-                 props=(), pure=False, ghost=None, trusted=False, no_raise=True, old_names=None, note="", lemmas=(), allocates=False, cases=(), asserts=(), assume_pre=()):
+                 props=(), pure=False, ghost=None, trusted=False, no_raise=True, old_names=None, note="", lemmas=(), allocates=False, cases=(), asserts=(), assume_pre=(), lemma_at=(), local_types=None):
         self.qual = qual
         self.params = params or {}          # name -> type descriptor
         self.requires = list(requires)      # [expr str]
@@ -44,6 +44,8 @@ class Contract:
         self.trusted = trusted              # assumed (A): external function, no body obligations
         self.ghost = ghost or {}
         self.note = note
+        self.local_types = dict(local_types or {})   # element types of local lists that start empty (name -> "list:<elem>")
+        self.lemma_at = list(lemma_at)      # [(lemma name, anchor, instance expr)]: instance of a separately proved lemma, assumed just before the anchored statement
         self.assume_pre = list(assume_pre)  # callee quals whose preconditions are ASSUMED at this function's call sites (listed as assumptions)
         self.asserts = list(asserts)        # [(name, anchor: prefix of the unparsed statement, expr)]: checked just before that statement runs
         self.cases = list(cases)            # exhaustive case split of the entry state (each case verified separately; exhaustiveness is an obligation)
@@ -108,6 +110,8 @@ def mk_heap(ctx):
     h = {"@len": z3.Array("H_len", I, I), "@el": z3.Array("H_el", I, z3.ArraySort(I, I)), "@alloc": z3.Array("H_alloc", I, B)}
     for cls, fields in ctx.schema.items():
         for f, t in fields.items():
+            if f == "__tuple__":
+                continue
             if f not in h:
                 h[f] = z3.Array(f, I, sort_of(t))
                 if parse_type(t)[2]:
@@ -125,7 +129,7 @@ def heap_typing(ctx, heap):
     seen = set()
     for cls, fields in ctx.schema.items():
         for f, t in fields.items():
-            if f in seen:
+            if f in seen or f == "__tuple__":
                 continue
             seen.add(f)
             base, arg, opt = parse_type(t)
@@ -813,6 +817,12 @@ class Exec:
             for k, v in reversed(c.pairs[:-1]):
                 r = self.ite(self.eq(i, k, st), v, r)
             return r
+        if isinstance(c, Ref) and "__tuple__" in self.ctx.schema.get(c.cls, {}):
+            lay = self.ctx.schema[c.cls]["__tuple__"].split(",")
+            xs = z3.simplify(i.v)
+            if not z3.is_int_value(xs) or not (0 <= xs.as_long() < len(lay)):
+                raise VCError("tuple-like object indexed symbolically")
+            return self.read_field(st, c, lay[xs.as_long()])
         if isinstance(c, DictObj):
             key = i.const() if isinstance(i, StrV) else None
             if key is None:
@@ -1128,7 +1138,12 @@ class Exec:
         gen = g.generators[0]
         if len(g.generators) != 1:
             raise VCError("nested generator")
-        src = self.range_list(gen.iter, st) if (isinstance(gen.iter, ast.Call) and isinstance(gen.iter.func, ast.Name) and gen.iter.func.id == "range") else self.ev(gen.iter, st)
+        self._rev_iter = False
+        it_ = gen.iter
+        if isinstance(it_, ast.Call) and isinstance(it_.func, ast.Name) and it_.func.id == "reversed" and not isinstance(self.peek(it_.args[0], st), ConstList):
+            self._rev_iter = True
+            it_ = it_.args[0]
+        src = self.range_list(it_, st) if (isinstance(it_, ast.Call) and isinstance(it_.func, ast.Name) and it_.func.id == "range") else self.ev(it_, st)
         if isinstance(src, ConstList):
             items = src.items
             conds, vals = [], []
@@ -1174,7 +1189,18 @@ class Exec:
                 return BoolV(z3.Exists([k], z3.And(rng, c, tv)))
             if n == "all":
                 return BoolV(safe_forall([k], z3.Implies(z3.And(rng, c), tv)))
-            raise VCError("next() over heap list: hoist through a contract")
+            # next(elt for x in [reversed] L if cond) without default: the first (last) matching element
+            if len(e.args) > 1:
+                raise VCError("next() with default over a heap list")
+            j = fresh("nx")
+            cj = z3.substitute(c, (k, j))
+            self.safety("next() finds an element (StopIteration)", st, z3.Exists([k], z3.And(rng, c)))
+            before = z3.And(k > j, k < nlen) if getattr(self, "_rev_iter", False) else z3.And(0 <= k, k < j)
+            st.pc.append(z3.Implies(z3.And(self.guards) if self.guards else TRUE,
+                                    z3.Implies(z3.Exists([k], z3.And(rng, c)), z3.And(0 <= j, j < nlen, cj, safe_forall([k], z3.Implies(before, z3.Not(c)))))))
+            if not isinstance(v, Num):
+                raise VCError("next() element kind")
+            return Num(z3.substitute(v.v, (k, j)), real=v.real)
         raise VCError(f"{n}() over {src!r}")
 
     # ------------------------------------------------------------------ statements
@@ -1207,6 +1233,16 @@ class Exec:
                     g = self.truth(self.spec_ev(expr, t), t)
                     self.oblige(f"assert-at[{nm}]@{x.lineno}", t, g, "assert-at", text=expr)
                     self.__dict__.setdefault("anchors_hit", set()).add(nm)
+        if self.contract is not None and self.contract.lemma_at and not isinstance(x, (ast.If, ast.For, ast.While)):
+            src = " ".join(ast.unparse(x).split())
+            for lname, anchor, expr in self.contract.lemma_at:
+                if src.startswith(" ".join(anchor.split())):
+                    if lname not in self.ctx.lemmas:
+                        raise VCError(f"unknown lemma {lname}")
+                    st = st.cp()
+                    st.pc.append(self.truth(self.spec_ev(expr, st), st))
+                    self.notes.append(f"L: instance of lemma {lname} assumed before `{anchor[:50]}`")
+                    self.__dict__.setdefault("anchors_hit", set()).add("lemma:" + lname)
         return m(x, st)
 
     def desugar_comprehensions(self, x):
@@ -1371,6 +1407,8 @@ class Exec:
         if isinstance(tgt, ast.Name):
             if isinstance(v, ConstList) and not self.keep_const_list(v):
                 v = self.materialise(st, v)
+            if isinstance(v, ListV) and v.elem == "?" and self.contract is not None and tgt.id in self.contract.local_types:
+                v.elem = self.contract.local_types[tgt.id].split(":", 1)[1]
             if isinstance(v, ListV) and tgt.id in getattr(self, "frozen_locals", ()) and self.depth == 0:
                 # a local list that is never mutated, stored or passed on after this (single) assignment: its content is fixed here
                 v = ListV(v.v, v.elem, v.none)
@@ -1408,12 +1446,12 @@ class Exec:
     def materialise(self, st, cl, elem=None):
         """turn a constant-length Python-level list into a heap list"""
         if elem is None:
-            if all(isinstance(x, Num) and not x.real for x in cl.items):
-                elem = "int"
-            elif cl.items and all(isinstance(x, Ref) for x in cl.items):
-                elem = "ref:" + cl.items[0].cls
-            elif not cl.items:
+            if not cl.items:
                 elem = "?"
+            elif all(isinstance(x, Num) and not x.real for x in cl.items):
+                elem = "int"
+            elif all(isinstance(x, Ref) for x in cl.items):
+                elem = "ref:" + cl.items[0].cls
             else:
                 return cl
         arr = fresh("lit", z3.ArraySort(I, I))
